@@ -240,6 +240,7 @@ fn fm_holds_at_shadows(f: &Fm) -> Option<bool> {
             false
         }
         Fm::Not(x) => !fm_holds_at_shadows(x)?,
+        Fm::SumIf(_) => return None,
     })
 }
 
